@@ -53,7 +53,8 @@ def configs(tier):
         out += [{"kind": "pool", "lifecycle": True, "workers": 2, "cs": 1, "nmax": 1},
                 {"kind": "pool", "lifecycle": True, "workers": 1, "cs": 1, "nmax": 2, "context_bound": 2, "Ks": (76, 90)},
                 {"kind": "pool", "lifecycle": True, "workers": 2, "cs": 1, "nmax": 2, "quota": 1, "context_bound": 2, "Ks": (84, 100)},
-                {"kind": "pool", "lifecycle": True, "workers": 1, "cs": 1, "nmax": 2, "quota": 1, "rq": 1, "context_bound": 3, "Ks": (80, 96)},
+                {"kind": "pool", "lifecycle": True, "workers": 1, "cs": 1, "nmax": 2, "quota": 1, "rq": 1, "context_bound": 3, "Ks": (80, 96),
+                 "witness_any_input": True},  # one worker with quota 1 cannot finish 2 chunks (by design): the witness is a run with n <= 1
                 # FactoryFunctorPool: lifecycle of the initial and of the REPLACED worker (all schedules with <= 2 pre-emptions)
                 {"kind": "factory", "lifecycle": True, "workers": 1, "cs": 1, "nmax": 1, "quota": 1, "spares": 1, "context_bound": 2, "Ks": (96, 110)}]
     return out
